@@ -63,6 +63,12 @@ def check_roundtrip(dicts, fmt, stale=None):
             finally:
                 os.chdir(old_cwd)
             return _compare(got, _expect(dicts), f'round trip ({fmt}, relative path)')
+        # the file name as str, as pathlib.Path or as bytes - whatever open() takes (chosen by the number of messages)
+        if len(msgs) % 3 == 1:
+            import pathlib
+            path = pathlib.Path(path)
+        elif len(msgs) % 3 == 2:
+            path = os.fsencode(path)
         try:
             mido.write_syx_file(path, msgs, plaintext=(fmt == 'text'))
         except Exception as exc:  # noqa: BLE001
